@@ -74,6 +74,8 @@ pub struct Program {
 }
 
 pub const WORDS: &[&str] = &["a", "b", "true", "false", "0", "1", "no", "yes", "x1", "", "k", "NO", "False", "zz", "00", "0.0", "-0"];
+/// argument values of condition-position calls (every word of them is checked not to be a command name)
+pub const COND_CALL_WORDS: &[&str] = &["p m", "a b k", "k a", "x1 b", "a", "x ", " y", " ", " 0", "no ", "true", "0", "x1", "k", "b"];
 pub const VARS: &[&str] = &["v", "w", "u", "x", "y", "q"];
 
 #[derive(Clone, Copy)]
@@ -98,6 +100,8 @@ struct G<'a, 'b> {
     fns: Vec<(bool, usize)>, // (scoped, arity) of functions callable so far
     pred_fn: Option<usize>,
     current_fn: Option<usize>,
+    /// arguments of the latest condition-position call of each function
+    last_cond_args: HashMap<usize, Vec<String>>,
 }
 
 impl<'a, 'b> G<'a, 'b> {
@@ -124,7 +128,7 @@ impl<'a, 'b> G<'a, 'b> {
     fn plain_expr(&mut self) -> Expr {
         // for condition-position call arguments: plain words, also padded with blanks or made of a blank only
         // (values outside the C09 known classes: they reach the function unchanged)
-        Expr::Lit(self.t.pick(&["a", "b", "true", "0", "x1", "k", "x ", " y", " ", "p q", " 0", "no "]).to_string())
+        Expr::Lit(self.t.pick(COND_CALL_WORDS).to_string())
     }
     fn cond(&mut self, in_fn: Option<usize>, for_while: bool) -> Cond {
         if !for_while && self.cfg.probe_conditions && self.t.chance(1, 8) {
@@ -154,7 +158,36 @@ impl<'a, 'b> G<'a, 'b> {
                 } else {
                     let f = self.t.below(self.fns.len());
                     let ar = self.fns[f].1;
-                    let args = (0..ar).map(|_| self.plain_expr()).collect();
+                    let mut args: Vec<Expr> = (0..ar).map(|_| self.plain_expr()).collect();
+                    if ar >= 2 && self.t.flip() {
+                        args = (0..ar).map(|_| Expr::Lit(self.t.pick(COND_CALL_WORDS).to_string())).collect();
+                    }
+                    // sometimes the same words as in the previous condition-position call of this function, cut into
+                    // arguments at other places (each call gets the arguments written for it)
+                    if ar >= 2 && self.t.flip() {
+                        if let Some(prev) = self.last_cond_args.get(&f).cloned() {
+                            let words: Vec<&str> = prev.iter().flat_map(|a| a.split(' ')).filter(|w| !w.is_empty()).collect();
+                            if words.len() > ar {
+                                let mut cuts: Vec<usize> = (0..ar - 1).map(|_| 1 + self.t.below(words.len() - 1)).collect();
+                                cuts.sort();
+                                cuts.dedup();
+                                if cuts.len() == ar - 1 {
+                                    let mut out = vec![];
+                                    let mut at = 0;
+                                    for c in cuts {
+                                        out.push(words[at..c].join(" "));
+                                        at = c;
+                                    }
+                                    out.push(words[at..].join(" "));
+                                    if out != prev {
+                                        args = out.into_iter().map(Expr::Lit).collect();
+                                    }
+                                }
+                            }
+                        }
+                    }
+                    let lits: Vec<String> = args.iter().map(|a| if let Expr::Lit(s) = a { s.clone() } else { String::new() }).collect();
+                    self.last_cond_args.insert(f, lits);
                     Cond::Call { f, args }
                 }
             }
@@ -322,7 +355,7 @@ pub fn gen_program(t: &mut Tape, cfg: GenCfg) -> Program {
         }
         arrays.push(a);
     }
-    let mut g = G { t, cfg, next_emit: 0, next_key: 0, budget: cfg.max_stmts, n_arrays, fns: vec![], pred_fn: None, current_fn: None };
+    let mut g = G { t, cfg, next_emit: 0, next_key: 0, budget: cfg.max_stmts, n_arrays, fns: vec![], pred_fn: None, current_fn: None, last_cond_args: HashMap::new() };
     let mut fns = vec![];
     if cfg.functions {
         let nf = 1 + g.t.len(3);
@@ -418,6 +451,11 @@ pub fn check_spellings(commands: &duckscript::types::command::Commands) -> Resul
                 Some(c) => return Err(format!("spelling {} resolves to {} (expected {})", n, c.name(), canon)),
                 None => return Err(format!("spelling {} is not registered", n)),
             }
+        }
+    }
+    for w in COND_CALL_WORDS.iter().flat_map(|v| v.split(' ')).filter(|w| !w.is_empty()) {
+        if commands.exists(w) {
+            return Err(format!("word {} of the condition-call values is a registered command name", w));
         }
     }
     for w in WORDS {
@@ -751,6 +789,8 @@ pub struct Model<'p> {
     pub loop_nest: usize,
     /// calls deeper than this end the case as 'step bound exceeded'
     pub max_call_depth: usize,
+    /// arguments of the latest executed condition-position call of each function
+    pub cond_call_args: HashMap<usize, Vec<String>>,
     pub exit_on_error: bool,
     /// C10: failures observed: id -> (message is known?, message)
     pub failures: Vec<u32>,
@@ -800,6 +840,7 @@ impl<'p> Model<'p> {
             block_runs: HashMap::new(),
             loop_nest: 0,
             max_call_depth: 40,
+            cond_call_args: HashMap::new(),
             exit_on_error: false,
             failures: vec![],
             last_error: None,
@@ -889,6 +930,12 @@ impl<'p> Model<'p> {
                 for a in args {
                     vals.push(self.eval(a)?);
                 }
+                if let Some(prev) = self.cond_call_args.get(f) {
+                    if *prev != vals && prev.join(" ") == vals.join(" ") {
+                        self.classes.insert("condition-call-with-the-same-words-cut-differently");
+                    }
+                }
+                self.cond_call_args.insert(*f, vals.clone());
                 self.nested += 1;
                 let r = self.call(*f, vals, None);
                 self.nested -= 1;
